@@ -57,13 +57,16 @@ func c09Programs() []c09Prog {
 func c09Emit(w *emit.Writer, label string, cs c01issCase, o *c01issObs) {
 	rec := cs
 	rec.Policy, rec.Script = "script", o.Sched
-	d := map[string]any{"class": cs.Class, "program": label, "backend": cs.Backend, "threads": len(cs.Threads), "faults": len(cs.Faults), "steps": len(o.Steps),
+	d := map[string]any{"class": cs.Class, "program": label, "backend": cs.Backend, "stores": cs.Stores, "threads": len(cs.Threads), "faults": len(cs.Faults), "steps": len(o.Steps),
 		"held": o.Held, "recorded": o.Recorded, "deadlock": o.Deadlock}
-	w.Add(emit.Case{Desc: d, In: rec, Obs: o, Wire: c01issWire(9, o), Nontrivial: len(cs.Faults) > 0, Key: fmt.Sprint(label, cs.Backend, cs.CrashLock, len(cs.Threads), cs.Faults, cs.CancelWait, o.Sched)})
+	w.Add(emit.Case{Desc: d, In: rec, Obs: o, Wire: c01issWire(c09Mode(cs), o), Nontrivial: len(cs.Faults) > 0, Key: fmt.Sprint(label, cs.Backend, cs.CrashLock, cs.Stores, cs.Policy, len(cs.Threads), cs.Faults, cs.CancelWait, o.Sched)})
 	w.Hist("program=" + label)
 	w.Hist("backend=" + map[string]string{"": "memory", "file": "file"}[cs.Backend])
 	w.Hist("class=" + cs.Class)
 	w.Hist(fmt.Sprintf("threads=%d", len(cs.Threads)))
+	if cs.Stores > 1 {
+		w.Hist(fmt.Sprintf("separate_storages=%d", cs.Stores))
+	}
 	for _, s := range o.Steps {
 		if s.Fault == c01fCancel && s.Op[0] == 7 {
 			w.Hist(fmt.Sprintf("cancelled_while_waiting=%v", map[bool]string{false: "planned", true: "rescue"}[o.Deadlock]))
@@ -150,6 +153,63 @@ func runC09(tier string, seed int64, outdir string, replay string) error {
 					oo, err := c01RunIssCase(cs)
 					if err != nil {
 						return fmt.Errorf("%s fault %d@%d: %v", p.Label, f, k, err)
+					}
+					c09Emit(w, p.Label, cs, oo)
+					total++
+				}
+			}
+		}
+		// two instances of one process on two SEPARATE storages use the same lock name at overlapping times (the
+		// package-level record of held locks is keyed by the name only): both must have released their own
+		// storage's lock when they return. Fault-free and every op index x fault in the first instance.
+		twoStores := map[string]bool{"obtain-sync": true, "obtain-async": true, "renew-sync": true, "renew-async": true, "manage-renew": true, "clean": true, "ari-update": true}
+		if twoStores[p.Label] {
+			for k := -1; k < n; k++ {
+				for f := c01fErr; f <= c01fPanic; f++ {
+					if k >= 0 && c09OpKindOf(o.Steps[k].Desc) == "Unlock" && f != c01fCancel {
+						continue
+					}
+					cs := mk(p, 2)
+					cs.Stores = 2
+					cs.Threads[1].Store = 1
+					cs.AllowUnlockFault = false
+					if k >= 0 {
+						cs.Faults = map[string]int{fmt.Sprintf("0:%d", k): f}
+					} else if f != c01fErr {
+						cs.Policy = map[int]string{c01fCancel: "seq", c01fPanic: "random"}[f] // fault-free: rr, seq, random
+						cs.SchedSeed = int64(7 + n)
+					}
+					oo, err := c01RunIssCase(cs)
+					if err != nil {
+						return fmt.Errorf("%s two storages fault %d@%d: %v", p.Label, f, k, err)
+					}
+					c09Emit(w, p.Label, cs, oo)
+					total++
+				}
+			}
+		}
+		// the caller's context ends exactly while Lock is in progress and the Locker grants the (uncontended)
+		// lock all the same, as FileStorage does: the operation holds a lock it must still release
+		for k := 0; k < n; k++ {
+			if c09OpKindOf(o.Steps[k].Desc) != "Lock" {
+				continue
+			}
+			for nth := 1; nth <= 2; nth++ {
+				if nth == 2 && ((p.Thread.Prog == "ari" && p.Thread.Newer) || (p.Thread.Prog == "acct" && p.AcctSeed["acct@example.com"] == "full")) {
+					continue
+				}
+				for _, be := range []string{"", "file"} {
+					if be == "file" && nth == 2 && tier != "thorough" && !map[string]bool{"renew-async": true, "clean-interval-old": true, "acct-register-callback": true}[p.Label] {
+						continue // a hand-over on FileStorage costs a second
+					}
+					cs := mk(p, nth)
+					cs.Backend, cs.LockIgnoresCtx = be, true
+					cs.AllowUnlockFault = false
+					cs.Faults = map[string]int{fmt.Sprintf("0:%d", k): c01fCancel}
+					cs.Class = "cancel-at-lock-granted"
+					oo, err := c01RunIssCase(cs)
+					if err != nil {
+						return fmt.Errorf("%s cancel at the Lock gate (%d instances, back-end %q): %v", p.Label, nth, be, err)
 					}
 					c09Emit(w, p.Label, cs, oo)
 					total++
@@ -264,4 +324,14 @@ func runC09(tier string, seed int64, outdir string, replay string) error {
 		c09Emit(w, p.Label, cs, oo)
 	}
 	return nil
+}
+
+// c09Mode: 9 = model comparison + S9; 7 = S9 alone, for the runs whose trace the labels do not determine: an
+// async operation whose context ended at the Lock gate reaches doWithRetry's first select with both the
+// cancellation and the zero timer ready, so it may or may not run the attempt once.
+func c09Mode(cs c01issCase) int {
+	if cs.Class == "cancel-at-lock-granted" && len(cs.Threads) > 0 && cs.Threads[0].Async {
+		return 7
+	}
+	return 9
 }
